@@ -17,6 +17,7 @@ Emitted (consumed by `PytaskModel/Clean.lean`):
   gitRootArgs              : List String   -- arguments of `git rev-parse` in git.get_root
   gitRootResolved          : Bool          -- whether get_root normalises `cwd / cdup` (resolve()/normpath)
   gitKnownExtra            : List String   -- extra component(s) added below git_root to the known paths (".git")
+  cleanKnowsProvisional    : Bool          -- whether _yield_paths_from_task also yields what a provisional node collects
 """
 from __future__ import annotations
 
@@ -216,37 +217,114 @@ def section() -> list[str]:
     else:
         raise ExtractError(f"get_root: unrecognised root expression {root_assign!r}")
 
-    # --- the git block of _collect_all_paths_known_to_pytask
+    # --- the git block of _collect_all_paths_known_to_pytask (local variable names are free)
     ck = extract._func(clean, "_collect_all_paths_known_to_pytask")
     src = ast.unparse(ck)
-    if "if is_git_installed():" not in src or "git_root = get_root(session.config['root'])" not in src:
-        raise ExtractError("_collect_all_paths_known_to_pytask: git block not recognised")
+    if "is_git_installed()" not in src:
+        raise ExtractError("_collect_all_paths_known_to_pytask: is_git_installed() is no longer consulted")
+    git_root_var = ls_var = None
+    for n in ast.walk(ck):
+        if isinstance(n, ast.Assign) and len(n.targets) == 1 and isinstance(n.targets[0], ast.Name) and isinstance(n.value, ast.Call):
+            f = ast.unparse(n.value.func)
+            if f == "get_root":
+                if [ast.unparse(x) for x in n.value.args] != ["session.config['root']"] or n.value.keywords:
+                    raise ExtractError("get_root is not called with session.config['root']")
+                git_root_var = n.targets[0].id
+            elif f == "get_all_files":
+                ls_var = n.targets[0].id
+    if git_root_var is None:
+        raise ExtractError("_collect_all_paths_known_to_pytask: `<var> = get_root(session.config['root'])` not found")
+    guarded = any(isinstance(n, ast.If) and ast.unparse(n.test) in (f"{git_root_var} is not None", f"{git_root_var} is not None and is_git_installed()")
+                  for n in ast.walk(ck))
+    if not guarded:
+        raise ExtractError("_collect_all_paths_known_to_pytask: the git block is not guarded by `<git_root> is not None`")
+
+    def root_kind(e: ast.AST) -> str | None:
+        u = ast.unparse(e)
+        if u in ("session.config['root']", "config['root']"):
+            return "root"
+        if u == git_root_var:
+            return "git_root"
+        return None
+
     ls_cwd = join_base = None
+    joined_var = None
+    joined_comp = None
     extra = []
     for n in ast.walk(ck):
         if isinstance(n, ast.Call) and ast.unparse(n.func) == "get_all_files":
             if len(n.args) != 1 or n.keywords:
                 raise ExtractError("get_all_files call shape changed")
-            ls_cwd = _root_expr_kind(n.args[0])
-        if isinstance(n, ast.ListComp) and "paths_known_by_git" in ast.unparse(n.generators[0].iter):
-            e = n.elt
-            if (isinstance(e, ast.Call) and isinstance(e.func, ast.Attribute) and e.func.attr == "joinpath"
-                    and len(e.args) == 1 and ast.unparse(e.args[0]) == n.generators[0].target.id and not n.generators[0].ifs):
-                join_base = _root_expr_kind(e.func.value)
-            elif isinstance(e, ast.BinOp) and isinstance(e.op, ast.Div) and ast.unparse(e.right) == n.generators[0].target.id:
-                join_base = _root_expr_kind(e.left)
-        if (isinstance(n, ast.Call) and ast.unparse(n.func) == "known_paths.add" and len(n.args) == 1
+            ls_cwd = root_kind(n.args[0])
+        if isinstance(n, (ast.ListComp, ast.SetComp, ast.GeneratorExp)) and len(n.generators) == 1:
+            g = n.generators[0]
+            it = ast.unparse(g.iter)
+            if (ls_var is not None and it == ls_var) or it.startswith("get_all_files("):
+                e = n.elt
+                tgt = ast.unparse(g.target)
+                if g.ifs:
+                    raise ExtractError("the git paths are filtered before they are joined")
+                if (isinstance(e, ast.Call) and isinstance(e.func, ast.Attribute) and e.func.attr == "joinpath"
+                        and len(e.args) == 1 and ast.unparse(e.args[0]) == tgt):
+                    join_base = root_kind(e.func.value)
+                elif isinstance(e, ast.BinOp) and isinstance(e.op, ast.Div) and ast.unparse(e.right) == tgt:
+                    join_base = root_kind(e.left)
+                joined_comp = ast.unparse(n)
+        if (isinstance(n, ast.Call) and isinstance(n.func, ast.Attribute) and n.func.attr == "add" and len(n.args) == 1
                 and isinstance(n.args[0], ast.BinOp) and isinstance(n.args[0].op, ast.Div)
-                and ast.unparse(n.args[0].left) == "git_root" and isinstance(n.args[0].right, ast.Constant)):
+                and ast.unparse(n.args[0].left) == git_root_var and isinstance(n.args[0].right, ast.Constant)):
             extra.append(n.args[0].right.value)
+    for n in ast.walk(ck):
+        if isinstance(n, ast.Assign) and len(n.targets) == 1 and isinstance(n.targets[0], ast.Name) and joined_comp is not None \
+                and ast.unparse(n.value) == joined_comp:
+            joined_var = n.targets[0].id
     if ls_cwd is None or join_base is None:
         raise ExtractError("_collect_all_paths_known_to_pytask: ls-files cwd / join base not recognised")
-    if "known_paths.update(absolute_paths_known_by_git)" not in src:
-        raise ExtractError("_collect_all_paths_known_to_pytask: git paths are not added to known_paths")
-    for needle in ("known_directories.update(path.parents)", "known_paths = known_files | known_directories",
-                   "known_paths.add(session.config['root'])", "known_paths.add(session.config['config'])"):
-        if needle not in src:
-            raise ExtractError(f"_collect_all_paths_known_to_pytask: {needle!r} not found")
+    added = any(isinstance(n, ast.Call) and isinstance(n.func, ast.Attribute) and n.func.attr == "update" and len(n.args) == 1
+                and ast.unparse(n.args[0]) in (joined_var, joined_comp) for n in ast.walk(ck))
+    if not added:
+        raise ExtractError("_collect_all_paths_known_to_pytask: the joined git paths are not added to the known paths")
+    ret = [n for n in ast.walk(ck) if isinstance(n, ast.Return)]
+    if len(ret) != 1 or not isinstance(ret[0].value, ast.Name):
+        raise ExtractError("_collect_all_paths_known_to_pytask: expected a single `return <set>`")
+    kp = ret[0].value.id
+    calls = {ast.unparse(n) for n in ast.walk(ck) if isinstance(n, ast.Call)}
+    for needle, why in ((f"{kp}.add(session.config['root'])", "the root"), (f"{kp}.add(session.config['config'])", "the configuration file")):
+        if needle not in calls:
+            raise ExtractError(f"_collect_all_paths_known_to_pytask: {why} is no longer added to the returned set ({needle})")
+    if not any(c.endswith(".update(_yield_paths_from_task(task))") for c in calls):
+        raise ExtractError("_collect_all_paths_known_to_pytask: task paths are no longer collected with _yield_paths_from_task")
+    if not any(c.endswith(".parents)") and ".update(" in c for c in calls):
+        raise ExtractError("_collect_all_paths_known_to_pytask: parents of the known files are no longer added")
+
+    # --- _yield_paths_from_task: task module, PPathNode leaves of depends_on / produces (, provisional nodes)
+    yp = extract._func(clean, "_yield_paths_from_task")
+    body = [s for s in yp.body if not (isinstance(s, ast.Expr) and isinstance(s.value, ast.Constant))]
+    if (len(body) != 2 or not isinstance(body[0], ast.If) or ast.unparse(body[0].test) != "isinstance(task, PTaskWithPath)"
+            or [ast.unparse(x) for x in body[0].body] != ["yield task.path"] or body[0].orelse):
+        raise ExtractError("_yield_paths_from_task: the task module is no longer yielded as `if isinstance(task, PTaskWithPath): yield task.path`")
+    loop = body[1]
+    if not (isinstance(loop, ast.For) and ast.unparse(loop.target) == "attribute" and isinstance(loop.iter, ast.Tuple)
+            and all(isinstance(e, ast.Constant) and isinstance(e.value, str) for e in loop.iter.elts)
+            and len(loop.body) == 1 and isinstance(loop.body[0], ast.For) and not loop.orelse
+            and ast.unparse(loop.body[0].target) == "node"
+            and ast.unparse(loop.body[0].iter) == "tree_leaves(getattr(task, attribute))"
+            and len(loop.body[0].body) == 1 and isinstance(loop.body[0].body[0], ast.If)):
+        raise ExtractError("_yield_paths_from_task: loop over the attributes / tree leaves not recognised")
+    task_attrs = [e.value for e in loop.iter.elts]
+    if sorted(task_attrs) != ["depends_on", "produces"]:
+        raise ExtractError(f"_yield_paths_from_task: attributes are {task_attrs}, expected depends_on and produces")
+    test = loop.body[0].body[0]
+    if ast.unparse(test.test) != "isinstance(node, PPathNode)" or [ast.unparse(x) for x in test.body] != ["yield node.path"]:
+        raise ExtractError("_yield_paths_from_task: `if isinstance(node, PPathNode): yield node.path` not recognised")
+    if not test.orelse:
+        knows_provisional = False
+    elif (len(test.orelse) == 1 and isinstance(test.orelse[0], ast.If) and not test.orelse[0].orelse
+          and ast.unparse(test.orelse[0].test) in ("isinstance(node, DirectoryNode)", "isinstance(node, PProvisionalNode)")
+          and [ast.unparse(x) for x in test.orelse[0].body] == ["yield from node.collect()"]):
+        knows_provisional = True
+    else:
+        raise ExtractError("_yield_paths_from_task: unrecognised branch besides PPathNode")
 
     strs = lambda xs: lean_list(xs, lean_str)  # noqa: E731
     return [
@@ -265,6 +343,7 @@ def section() -> list[str]:
         f"def gitRootArgs : List String := {strs(gr_args)}",
         f"def gitRootResolved : Bool := {lean_bool(resolved)}",
         f"def gitKnownExtra : List String := {strs(extra)}",
+        f"def cleanKnowsProvisional : Bool := {lean_bool(knows_provisional)}",
         "",
     ]
 
